@@ -231,7 +231,7 @@ class StubStatistics:
 
 
 def build_web(client, filters=None, robots_checker=None, max_redirects=20, http_login=None,
-              strong_redirects=True, cookie_jar=None, table=None, scraper=None):
+              strong_redirects=True, cookie_jar=None, table=None, scraper=None, retry_flags=False):
     from wpull.processor.web import WebProcessor, WebProcessorFetchParams
     from wpull.processor.rule import FetchRule, ResultRule, ProcessingRule
     from wpull.protocol.http.web import WebClient
@@ -249,7 +249,8 @@ def build_web(client, filters=None, robots_checker=None, max_redirects=20, http_
     f['FileWriter'] = NullWriter()
     f['FetchRule'] = FetchRule(url_filter=F.DemuxURLFilter(filters) if filters is not None else None,
                                robots_txt_checker=robots_checker, http_login=http_login)
-    f['ResultRule'] = ResultRule(waiter=LinearWaiter(wait=0, max_wait=0), statistics=StubStatistics())
+    f['ResultRule'] = ResultRule(waiter=LinearWaiter(wait=0, max_wait=0), statistics=StubStatistics(),
+                                 retry_connrefused=retry_flags, retry_dns_error=retry_flags)
     f['ProcessingRule'] = ProcessingRule(f['FetchRule'], document_scraper=scraper)
     f['WebClient'] = WebClient(http_client=client, cookie_jar=cookie_jar,
                                redirect_tracker_factory=functools.partial(RedirectTracker, max_redirects=max_redirects))
